@@ -1,6 +1,7 @@
 //! cvh - conformance harness binding the TLA+ specifications under /verif/spec to the real
 //! cadence code (built from /repo's working tree with --cfg cadence_verif).
 mod common;
+mod queue;
 mod writer;
 
 fn main() {
@@ -14,6 +15,8 @@ fn main() {
     match argv[1].as_str() {
         "writer-replay" => writer::replay(&args),
         "writer-drive" => writer::drive(&args),
+        "queue-stress" => queue::stress(&args),
+        "queue-replay" => queue::replay(&args),
         other => {
             eprintln!("unknown subcommand {}", other);
             std::process::exit(2);
